@@ -171,7 +171,7 @@ pick_colliding_uids(void)
 }
 
 /* ---------------- events ---------------- */
-enum {E_ADD, E_CANCEL, E_TICK_ONTIME, E_TICK_IDLE, E_TICK_LATE, E_EXIT, E_LIST, E_SCHED, E_ADDOWN, E_ADD2, E_TICK_EXACT, E_TICK_FAIL, E_STOP, E_TICKX, E_ADDGONE, E_ADDANON, E_ADDVANISH};
+enum {E_ADD, E_CANCEL, E_TICK_ONTIME, E_TICK_IDLE, E_TICK_LATE, E_EXIT, E_LIST, E_SCHED, E_ADDOWN, E_ADD2, E_TICK_EXACT, E_TICK_FAIL, E_STOP, E_TICKX, E_ADDGONE, E_ADDANON, E_ADDVANISH, E_ADDNOID};
 struct ev_s {
 	int kind;
 	int user;	/* index into users[] */
@@ -252,6 +252,7 @@ evname(char *buf, size_t bsz, const struct ev_s *e)
 	case E_ADDGONE: snprintf(buf, bsz, "ADD(%u,%s,%s; the client is gone before the reply)", users[e->user], uids[e->uid], tpls[e->arg].name); break;
 	case E_ADDANON: snprintf(buf, bsz, "ADD(peer 4242 whom the user data base does not know,%s,owner=%s)", uids[e->uid], e->arg2 == 0 ? "absent" : e->arg2 == 1 ? "1000" : "alice"); break;
 	case E_ADDVANISH: snprintf(buf, bsz, "ADD(%u,%s,%s; the user data base fails at look-up %d of the request)", users[e->user], uids[e->uid], tpls[e->arg].name, e->arg2); break;
+	case E_ADDNOID: snprintf(buf, bsz, "ADD(%u, an event with neither UID nor SUMMARY)", users[e->user]); break;
 	case E_CANCEL: snprintf(buf, bsz, "CANCEL(%u,%s)", users[e->user], uids[e->uid]); break;
 	case E_TICK_ONTIME: snprintf(buf, bsz, "TICK(on-time)"); break;
 	case E_TICK_IDLE: snprintf(buf, bsz, "TICK(idle)"); break;
@@ -270,7 +271,7 @@ evname(char *buf, size_t bsz, const struct ev_s *e)
 static const char*
 evkind(const struct ev_s *e)
 {
-	static const char *const k[] = {"ADD", "CANCEL", "TICK-ontime", "TICK-idle", "TICK-late", "EXIT", "LIST", "SCHED", "ADDOWN", "ADD2", "TICK-exact", "TICK-spawnfail", "STOP", "TICK+EXIT", "ADD-client-gone", "ADD-unknown-peer", "ADD-userdb-fails"};
+	static const char *const k[] = {"ADD", "CANCEL", "TICK-ontime", "TICK-idle", "TICK-late", "EXIT", "LIST", "SCHED", "ADDOWN", "ADD2", "TICK-exact", "TICK-spawnfail", "STOP", "TICK+EXIT", "ADD-client-gone", "ADD-unknown-peer", "ADD-userdb-fails", "ADD-nameless"};
 	return k[e->kind];
 }
 
@@ -394,6 +395,11 @@ enabled(struct ev_s *ev, int max)
 			if ((prop == 11 && !narrow) || (prop != 11 && m_find(uids[k]))) {
 				PUSH(E_CANCEL, u, k);
 			}
+		}
+		if (prop == 11) {
+			/* an event that has no UID and nothing to make one from: it cannot be told from an empty slot, listed or
+			 * cancelled, so it must not be taken on */
+			PUSH(E_ADDNOID, u, 0, 0);
 		}
 		if (prop == 11 && u == 0) {
 			/* a peer whose uid the user data base does not know: whatever owner it names, nothing of it is accepted */
@@ -666,6 +672,31 @@ apply(const struct ev_s *e)
 			int nobs = hx_observe(obs), seen = 0;
 			for (int j = 0; j < nobs; j++) seen |= !strcmp(obs[j].uid, t->uid);
 			if (!seen) t->present = 0;
+		}
+		break;
+	}
+	case E_ADDNOID: {
+		const unsigned u = users[e->user];
+		char st[32];
+		size_t o;
+		tpl_stamp(st, sizeof(st), HX_T0 + 2);
+		o = (size_t)snprintf(req, sizeof(req), "BEGIN:VCALENDAR\nVERSION:2.0\nMETHOD:PUBLISH\nBEGIN:VEVENT\nDTSTART:%s\nEND:VEVENT\nEND:VCALENDAR\n", st);
+		hx_request(&rp, u, req, o);
+		/* model: nothing changes; a task nobody can name would show as lingering in the table check below */
+		if (rp.nsucc != 0 || rp.nfail > 1) {
+			snprintf(shape, sizeof(shape), "%s/%s", k, rp.nsucc ? "accepted" : "count");
+			report("reply", shape, "event without UID and SUMMARY: %d success / %d failure replies, expected it to be refused", rp.nsucc, rp.nfail);
+		}
+		/* whatever the reply says, it does not name somebody else's task */
+		for (int q = 0; q < 3; q++) {
+			char pat[96];
+			struct mtask_s *t = m_find(uids[q]);
+			snprintf(pat, sizeof(pat), "\nUID:%s\n", uids[q]);
+			if (t && t->owner != u && strstr(rp.buf, pat)) {
+				snprintf(shape, sizeof(shape), "%s", k);
+				report("reply-leak", shape, "the reply to %u's nameless event names %s, a task of user %u", u, uids[q], t->owner);
+				break;
+			}
 		}
 		break;
 	}
